@@ -314,14 +314,14 @@ Proof.
   split; reflexivity.
 Qed.
 
-(* ==== BEGIN x_scale appendix (generated by work/x_scale/gen_appendix.py) ==== *)
+(* ==== BEGIN x_scale appendix (generated by tools/gen_scale_appendix.py) ==== *)
 (* Source translator x_scale (round 3): what harness/translate/x_scale.py read in the scale marginals of
    matrix/measure.py (and stripe/measure.py::_ScaledCounts) on this run denotes Model/Scale.v's per-vector
    definitions (statements: Proofs/GenAgreeScale*.v). *)
 From Coq Require String.
-From CC Require Base.VecExp Model.Scale Gen.ScaleSrc Gen.StripeScaleSrc Proofs.GenAgreeVecTac Proofs.GenAgreeScaleTac Proofs.GenAgreeScaleMean Proofs.GenAgreeScaleVar Proofs.GenAgreeScaleMedian Proofs.GenAgreeScaleMedianBlocks Proofs.GenAgreeScaleStrand Proofs.GenAgreeScaleStrandMedian.
+From CC Require Base.VecExp Spec.Stats Model.Scale Model.ScaleOrient Model.ScaleDisplay Gen.ScaleSrc Gen.StripeScaleSrc Gen.PartScaleSrc Proofs.ScaleDisplayProofs Proofs.GenAgreeVecTac Proofs.GenAgreeScaleTac Proofs.GenAgreeScaleMean Proofs.GenAgreeScaleVar Proofs.GenAgreeScaleMedian Proofs.GenAgreeScaleMedianBlocks Proofs.GenAgreeScaleStrand Proofs.GenAgreeScaleStrandMedian Proofs.GenAgreeScaleMargin Proofs.GenAgreeScaleDisplay.
 Section GenAgreeXScale_C14.   (* scopes and imports below end with the section *)
-Import Coq.Strings.String CC.Base.VecExp CC.Model.Scale CC.Gen.ScaleSrc CC.Gen.StripeScaleSrc CC.Proofs.GenAgreeVecTac CC.Proofs.GenAgreeScaleTac CC.Proofs.GenAgreeScaleMean CC.Proofs.GenAgreeScaleVar CC.Proofs.GenAgreeScaleMedian CC.Proofs.GenAgreeScaleMedianBlocks CC.Proofs.GenAgreeScaleStrand CC.Proofs.GenAgreeScaleStrandMedian.
+Import Coq.Strings.String CC.Base.VecExp CC.Spec.Stats CC.Model.Scale CC.Model.ScaleOrient CC.Model.ScaleDisplay CC.Gen.ScaleSrc CC.Gen.StripeScaleSrc CC.Gen.PartScaleSrc CC.Proofs.ScaleDisplayProofs CC.Proofs.GenAgreeVecTac CC.Proofs.GenAgreeScaleTac CC.Proofs.GenAgreeScaleMean CC.Proofs.GenAgreeScaleVar CC.Proofs.GenAgreeScaleMedian CC.Proofs.GenAgreeScaleMedianBlocks CC.Proofs.GenAgreeScaleStrand CC.Proofs.GenAgreeScaleStrandMedian CC.Proofs.GenAgreeScaleMargin CC.Proofs.GenAgreeScaleDisplay.
 Import Coq.Lists.List.ListNotations CC.Base.XQ CC.Base.ListX.
 Local Close Scope Q_scope.
 Local Open Scope string_scope.
@@ -751,6 +751,139 @@ Theorem C14_gen_stripe_ScaledCounts_scale_median :
   end.
 Proof. exact gen_stripe_ScaledCounts_scale_median. Qed.
 Print Assumptions C14_gen_stripe_ScaledCounts_scale_median.
+
+Theorem C14_gen_Slice_columns_scale_mean_margin :
+  match vpsrc_Slice_columns_scale_mean_margin with
+  | Some e => forall nc rb rvals cvals srt, 0 < nc -> List.length rb = List.length rvals ->
+      veval (env_part (cmargin_attrs nc rb rvals cvals) srt) e
+      = opt_val (columns_scale_mean_margin rb rvals)
+  | None => True
+  end.
+Proof. exact gen_Slice_columns_scale_mean_margin. Qed.
+Print Assumptions C14_gen_Slice_columns_scale_mean_margin.
+
+Theorem C14_gen_Slice_rows_scale_mean_margin :
+  match vpsrc_Slice_rows_scale_mean_margin with
+  | Some e => forall nc cb rvals cvals srt, 0 < List.length cb -> List.length (mrow cb 0) = List.length cvals ->
+      veval (env_part (rmargin_attrs nc cb rvals cvals) srt) e
+      = opt_val (rows_scale_mean_margin cb cvals)
+  | None => True
+  end.
+Proof. exact gen_Slice_rows_scale_mean_margin. Qed.
+Print Assumptions C14_gen_Slice_rows_scale_mean_margin.
+
+Theorem C14_gen_Slice_columns_scale_median_margin :
+  match vpsrc_Slice_columns_scale_median_margin with
+  | Some e => forall nc rb rvals cvals srt, 0 < nc -> List.length rb = List.length rvals ->
+      Forall finite_or_nan rvals -> Forall nonneg_count (mcol rb 0) ->
+      veval (env_part (cmargin_attrs nc rb rvals cvals) srt) e
+      = opt_val (columns_scale_median_margin rb rvals)
+  | None => True
+  end.
+Proof. exact gen_Slice_columns_scale_median_margin. Qed.
+Print Assumptions C14_gen_Slice_columns_scale_median_margin.
+
+Theorem C14_gen_Slice_rows_scale_median_margin :
+  match vpsrc_Slice_rows_scale_median_margin with
+  | Some e => forall nc cb rvals cvals srt, 0 < List.length cb -> List.length (mrow cb 0) = List.length cvals ->
+      Forall finite_or_nan cvals -> Forall nonneg_count (mrow cb 0) ->
+      veval (env_part (rmargin_attrs nc cb rvals cvals) srt) e
+      = opt_val (rows_scale_median_margin cb cvals)
+  | None => True
+  end.
+Proof. exact gen_Slice_rows_scale_median_margin. Qed.
+Print Assumptions C14_gen_Slice_rows_scale_median_margin.
+
+Theorem C14_gen_Slice_has_scale_means :
+  match vpsrc_Slice_has_scale_means with
+  | Some e => forall v srt, v <> VErr ->
+      veval (env_part [("columns_scale_mean", v)] srt) e = VB (not_none v)
+  | None => True
+  end.
+Proof. exact gen_Slice_has_scale_means. Qed.
+Print Assumptions C14_gen_Slice_has_scale_means.
+
+Theorem C14_gen_Strand_has_scale_means :
+  match vpsrc_Strand_has_scale_means with
+  | Some e => forall v srt, v <> VErr ->
+      veval (env_part [("scale_mean", v)] srt) e = VB (not_none v)
+  | None => True
+  end.
+Proof. exact gen_Strand_has_scale_means. Qed.
+Print Assumptions C14_gen_Strand_has_scale_means.
+
+Theorem C14_gen_Slice__rows_dimension_numeric_values :
+  match vpsrc_Slice__rows_dimension_numeric_values with
+  | Some e => forall rvals cvals rorder corder rest srt, order_ok (List.length rvals) rorder ->
+      veval (env_part (disp_attrs rvals cvals rorder corder rest) srt) e = VV (display_values rvals rorder)
+  | None => True
+  end.
+Proof. exact gen_Slice__rows_dimension_numeric_values. Qed.
+Print Assumptions C14_gen_Slice__rows_dimension_numeric_values.
+
+Theorem C14_gen_Slice__columns_dimension_numeric_values :
+  match vpsrc_Slice__columns_dimension_numeric_values with
+  | Some e => forall rvals cvals rorder corder rest srt, order_ok (List.length cvals) corder ->
+      veval (env_part (disp_attrs rvals cvals rorder corder rest) srt) e = VV (display_values cvals corder)
+  | None => True
+  end.
+Proof. exact gen_Slice__columns_dimension_numeric_values. Qed.
+Print Assumptions C14_gen_Slice__columns_dimension_numeric_values.
+
+Theorem C14_gen_Slice__rows_have_numeric_value :
+  match vpsrc_Slice__rows_have_numeric_value with
+  | Some e => forall rvals cvals rorder corder rest srt, order_ok (List.length rvals) rorder ->
+      veval (env_part (disp_attrs rvals cvals rorder corder rest) srt) e = VB (display_have_value rvals rorder)
+  | None => True
+  end.
+Proof. exact gen_Slice__rows_have_numeric_value. Qed.
+Print Assumptions C14_gen_Slice__rows_have_numeric_value.
+
+Theorem C14_gen_Slice__columns_have_numeric_value :
+  match vpsrc_Slice__columns_have_numeric_value with
+  | Some e => forall rvals cvals rorder corder rest srt, order_ok (List.length cvals) corder ->
+      veval (env_part (disp_attrs rvals cvals rorder corder rest) srt) e = VB (display_have_value cvals corder)
+  | None => True
+  end.
+Proof. exact gen_Slice__columns_have_numeric_value. Qed.
+Print Assumptions C14_gen_Slice__columns_have_numeric_value.
+
+Theorem C14_gen_Slice__columns_scale_mean_variance :
+  match vpsrc_Slice__columns_scale_mean_variance with
+  | Some e => forall nc counts means rvals cvals rorder corder srt,
+      order_ok (List.length rvals) rorder -> wf_mat nc counts ->
+      List.length counts = List.length rorder -> List.length means = nc -> 0 < nc ->
+      veval (env_part (disp_attrs rvals cvals rorder corder
+                         [("counts", VM nc counts); ("columns_scale_mean", VV means)]) srt) e
+      = opt_vec (display_scale_variance nc counts (display_values rvals rorder) means)
+  | None => True
+  end.
+Proof. exact gen_Slice__columns_scale_mean_variance. Qed.
+Print Assumptions C14_gen_Slice__columns_scale_mean_variance.
+
+Theorem C14_display_values_nth vals order k : k < List.length order ->
+  let z := nth k order 0%Z in
+  ((z < 0)%Z -> vnth (display_values vals order) k = NaN) /\
+  ((0 <= z)%Z -> vnth (display_values vals order) k = vnth vals (Z.to_nat z)).
+Proof. exact (display_values_nth vals order k). Qed.
+Print Assumptions C14_display_values_nth.
+
+Theorem C14_display_have_value_iff vals order :
+  display_have_value vals order = true <->
+  exists z, In z order /\ (0 <= z)%Z /\ is_nan (vnth vals (Z.to_nat z)) = false.
+Proof. exact (display_have_value_iff vals order). Qed.
+Print Assumptions C14_display_have_value_iff.
+
+Theorem C14_display_scale_variance_some nc counts dvals means j : any_value dvals = true -> j < nc ->
+  exists l, display_scale_variance nc counts dvals means = Some l /\ List.length l = nc /\
+            vnth l j = scale_var (mcol counts j) dvals (vnth means j).
+Proof. exact (display_scale_variance_some nc counts dvals means j). Qed.
+Print Assumptions C14_display_scale_variance_some.
+
+Theorem C14_display_scale_variance_none nc counts dvals means :
+  display_scale_variance nc counts dvals means = None <-> any_value dvals = false.
+Proof. exact (display_scale_variance_none nc counts dvals means). Qed.
+Print Assumptions C14_display_scale_variance_none.
 
 (* non-vacuity: the translated `_weighted_mean` on proportions 1/4 1/4 1/2, values 1 - 3 *)
 Example C14_gen_example :
